@@ -291,6 +291,26 @@ theorem flatNormals_spec {m m' : MeshVal (List ℝ)} (hm : m.flatNormals = some 
         rw [this]
   · cases hm
 
+/-- **FlatNormals, as far as it transfers to the Go code**: per vertex `v`,
+    * in no triangle: `normalize(1,1,1)`;
+    * last face `c` NON-degenerate (`c ≠ 0`): the unit face normal `c/|c|` (length 1);
+    * last face degenerate (`c = 0`): NO claim here — Go computes `0/0 = NaN` in every component (float only; covered by
+      the bit-exact correspondence and the corpus case `flat:degenerate-last-face`), while over ℝ the model value is 0. -/
+theorem flatNormals_spec_nondegenerate {m m' : MeshVal (List ℝ)} (hm : m.flatNormals = some m') :
+    ∃ d normals, m.attr? posKey = some d ∧ m' = m.setAttr normalKey normals ∧ normals.length = d.length ∧
+      ∀ v, v < d.length →
+        (lastFace (d.filterMap v3?) (triples m.indices) v = none →
+          normals[v]? = some (ofV3 (V3.One : R3).Normalized)) ∧
+        (∀ c, lastFace (d.filterMap v3?) (triples m.indices) v = some c → c ≠ ⟨0, 0, 0⟩ →
+          normals[v]? = some (ofV3 c.Normalized) ∧ c.Normalized.Length = 1) := by
+  obtain ⟨d, normals, hd, hm', hl, hv⟩ := flatNormals_spec hm
+  refine ⟨d, normals, hd, hm', hl, fun v hlt => ⟨?_, ?_⟩⟩
+  · intro hnone
+    rw [hv v hlt]; simp [flatNormalAt, hnone]
+  · intro c hc hne
+    obtain ⟨hi, hu⟩ := normalized_idem c hne
+    rw [hv v hlt]; simp [flatNormalAt, hc, hi, hu]
+
 /-- ORDER DEPENDENCE is real: on a shared vertex the last visited triangle decides -/
 example : lastFace [⟨0, 0, 0⟩, ⟨1, 0, 0⟩, ⟨0, 1, 0⟩, ⟨0, 0, 1⟩] [(0, 1, 2), (0, 1, 3)] 0 ≠
           lastFace [⟨0, 0, 0⟩, ⟨1, 0, 0⟩, ⟨0, 1, 0⟩, ⟨0, 0, 1⟩] [(0, 1, 3), (0, 1, 2)] 0 := by
